@@ -345,6 +345,14 @@ sack_instance!(seg_sack_n3_d0, 3, 65534, 0, false);
 // @unwindset bitvec=9
 sack_instance!(seg_sack_n3_dm1_onebyte, 3, 100, -1, true);
 
+// @verif id=SEG.sack3.w props=C01,C04,C06,C09 tier=quick timeout=900
+// @functions Segments::remove_up_to_ack, SelectiveAck::iter
+// @bounds N = 3 segments at sequence numbers 0, 1, 2 with ack_nr = 65535 (duplicate ACK carrying SACK exactly at the 16-bit wrap: ack_nr + 2 wraps to 1)
+// @asserts as SEG.sack3.dm2
+// @assumes representation invariant on the pre-state
+// @unwindset bitvec=9
+sack_instance!(seg_sack_n3_dm1_at_wrap, 3, 0, -1, false);
+
 // @verif id=SEG.sack3.d1 props=C01,C04,C06,C09 tier=thorough timeout=1800
 // @functions Segments::remove_up_to_ack
 // @bounds as SEG.sack3.dm2 with ack_nr = snd_una+1
